@@ -148,9 +148,13 @@ class LockScope(nfa.Spec):
 
     def step(self, st, label):
         ev = label.split("@")[0]
+        src = label.split("@")[1] if "@" in label else ""
         ph, wr = st
         if ev in ("unwind", "cancel") or ev.startswith("pend:"):
             return st
+        # a try-acquire that came back empty-handed holds nothing (`match R.try_write() { Some(g) => g, None => R.write().await }`)
+        if ev == "sw:Option::None" and src.startswith("acq_try_") and ph == "held":
+            return ("free", False)
         if ev.startswith("call:acq_"):
             if ph != "free":
                 return nfa.Err("R08.2: the registry lock is acquired a second time (check-then-act split over two critical sections, or self-deadlock)")
@@ -196,6 +200,29 @@ class _HandOutOnlyLive(nfa.Spec):
         return st
 
 
+class _TryThenWait(nfa.Spec):
+    """an operation that tried to take the registry without waiting and failed goes on to wait for it; it does not return"""
+    init = ("s0",)
+
+    def step(self, st, label):
+        ev = label.split("@")[0]
+        src = label.split("@")[1] if "@" in label else ""
+        ph = st[0]
+        if ev in ("call:acq_try_read", "call:acq_try_write"):
+            return ("tried",)
+        if ev == "sw:Option::Some" and src.startswith("acq_try_") and ph == "tried":
+            return ("have",)
+        if ev == "sw:Option::None" and src.startswith("acq_try_") and ph == "tried":
+            return ("missed",)
+        if ev.startswith("call:acq_") and not ev.startswith("call:acq_try_") and ph in ("tried", "missed"):
+            return ("have",)
+        if ev == "retval:residual" and ph == "tried":
+            return nfa.Err("R08.8: `?` on a try-acquire: the operation answers None / fails because the lock was busy")
+        if (ev == "ret" or ev.startswith("retval:")) and ph == "missed":
+            return nfa.Err("R08.8: the operation answers on the path on which its try-acquire failed")
+        return st
+
+
 class RegisterSpec(nfa.Spec):
     """insert only when no entry / entry stopped; otherwise Err without insert"""
     init = ("s0",)
@@ -203,6 +230,8 @@ class RegisterSpec(nfa.Spec):
     def step(self, st, label):
         ev = label.split("@")[0]
         ph = st[0]
+        if "@" in label and label.split("@")[1].startswith("acq_"):
+            return st  # the outcome of a try-acquire says nothing about the table
         if ev in ("sw:Option::None", "sw:Entry::Vacant") and ph == "s0":
             return ("absent",)
         if ev in ("sw:Option::Some", "sw:Entry::Occupied") and ph == "s0":
@@ -463,7 +492,14 @@ def check_cfg(ctx, fx, cfg):
         # is "try" (`try_from_registry`, which may answer None for any reason) acquires the registry without waiting — for every
         # other one a `try_read()?` / `try_write()` turns "somebody else is using the registry" into "not registered" / a failure
         tries = [(t.get("callee"), t["l"]) for _, t in b.normal_calls() if is_acquire(t) and (acquire_kind(t) or "").startswith("try_")]
-        ctx.require(not tries or short == "try_from_registry", "R08.8", inst + ":waits-for-the-registry",
+        gives_up = False
+        if tries and short != "try_from_registry":
+            # a try-acquire as a fast path in front of the waiting one is fine (`match R.try_write() { Some(g) => g, None => R.write().await }`):
+            # what must not happen is that the operation *answers* on the path on which the try failed
+            tv, tps = nfa.check(n, _TryThenWait())
+            ctx.count_nfa({}, tps)
+            gives_up = bool(tv)
+        ctx.require(not gives_up, "R08.8", inst + ":waits-for-the-registry",
                     "%s gives up when the registry lock is contended (%s): its answer then reflects the lock, not the table" % (short, [c for c, _ in tries]), fn=f["def"], site=tries[0][1] if tries else f["loc"])
         if short == "register":
             viols, ps = nfa.check(n, RegisterSpec())
